@@ -12,6 +12,7 @@ import (
 	"fmt"
 	"io"
 	"os"
+	realexec "os/exec"
 	"path/filepath"
 	"strconv"
 	"strings"
@@ -45,6 +46,10 @@ type Proc struct {
 	State    *ProcessState
 	Signals  []SignalRec
 	Spec     map[string]string
+	// A process given hold=<dur> has left a descendant behind that inherited its output pipes
+	// and lives for that long after the process itself has exited.
+	DescUntil   time.Duration // fake instant at which the descendant ends (0: no descendant)
+	PipesClosed bool
 
 	mu     sync.Mutex
 	stdout io.Writer
@@ -247,6 +252,19 @@ func (p *Proc) exitAfter(d time.Duration, st *ProcessState) {
 			p.Exited = true
 			p.ExitAt = since()
 			p.State = st
+			if h, ok := parseDur(p.Spec["hold"]); ok && h > 0 {
+				p.DescUntil = p.ExitAt + h
+				time.AfterFunc(h, func() {
+					p.mu.Lock()
+					p.PipesClosed = true
+					p.mu.Unlock()
+					if s := simrt.Cur(); s != nil {
+						s.Poke()
+					}
+				})
+			} else {
+				p.PipesClosed = true
+			}
 			if st.signal == "" {
 				if v, ok := p.Spec["lateout"]; ok && p.stdout != nil {
 					io.WriteString(p.stdout, v+"\n")
@@ -342,6 +360,35 @@ func (c *Cmd) Wait() error {
 			time.Sleep(time.Millisecond)
 		}
 	}
+	// os/exec: when Stdout or Stderr is not an *os.File, Wait also waits for the goroutines that copy
+	// from the pipes, i.e. until every holder of the write ends (the process and its descendants) has
+	// closed them - but, if WaitDelay is set, for no longer than WaitDelay after the process exited;
+	// then the pipes are closed under the descendants and Wait reports ErrWaitDelay.
+	delayed := false
+	if _, t := simrt.Current(); t != nil && (c.Stdout != nil || c.Stderr != nil) {
+		p.mu.Lock()
+		exitAt, open := p.ExitAt, !p.PipesClosed
+		p.mu.Unlock()
+		if open {
+			if c.WaitDelay > 0 {
+				if rest := exitAt + c.WaitDelay - since(); rest > 0 {
+					time.AfterFunc(rest, func() {
+						if s := simrt.Cur(); s != nil {
+							s.Poke()
+						}
+					})
+				}
+			}
+			simrt.Block("proc.wait-pipes", func() bool {
+				p.mu.Lock()
+				defer p.mu.Unlock()
+				return p.PipesClosed || c.WaitDelay > 0 && since() >= exitAt+c.WaitDelay
+			})
+			p.mu.Lock()
+			delayed = !p.PipesClosed
+			p.mu.Unlock()
+		}
+	}
 	p.mu.Lock()
 	p.Reaped = true
 	st := p.State
@@ -350,7 +397,20 @@ func (c *Cmd) Wait() error {
 	if !st.Success() {
 		return &ExitError{ProcessState: st}
 	}
+	if delayed {
+		return ErrWaitDelay
+	}
 	return nil
+}
+
+// ErrWaitDelay mirrors exec.ErrWaitDelay.
+var ErrWaitDelay = realexec.ErrWaitDelay
+
+// DescendantAlive reports whether a descendant of the process is still running at the fake instant at.
+func (p *Proc) DescendantAlive(at time.Duration) bool {
+	p.mu.Lock()
+	defer p.mu.Unlock()
+	return p.Exited && p.DescUntil > at
 }
 
 func (c *Cmd) Output() ([]byte, error) { return nil, fmt.Errorf("simexec: Output not supported") }
